@@ -28,6 +28,14 @@ What the search-level theorems cover, said once:
   the turns at the two seams (`edge_oriented_seam_counterexample`); recorded findings, by design of
   `run_edge_oriented`.  The inner elements and the tree are covered
   (`edge_oriented_inner_edges_permitted`).
+* **modelled rather than verified — the NaN-free domain**: `VehicleRestriction::valid` compares in
+  `OrderedFloat`'s total order (`x <= NaN` is true: a NaN limit admits every vehicle), the model in
+  IEEE `≤` (false).  Restriction files and queries cannot hold a NaN (the readers refuse it); the
+  extreme-value stream gives restriction limits every other extreme (0, −0, negative, 1e308, ±∞,
+  subnormal; no axles, 255 axles), correspondence only.
+* the query / configuration decoders accept every form serde accepts: a unit as its name or as
+  `{"name": null}`, `road_class_parser` as `{"mapping": {…}}` or `[{…}]`
+  (`vehicle_dimension_read_exactly` was restated accordingly).
 -/
 import Compass.Proofs.Num
 import Compass.Model.Instance
@@ -855,6 +863,20 @@ example : (FrontierM.roadClass (α := ℚ) (some [1, 2]) [0, 2, 5]).valid 1 none
 example : (FrontierM.roadClass (α := ℚ) (some [1, 2]) [0, 2, 5]).valid 2 none = some false := by decide
 example : (FrontierM.turnRestriction (α := ℚ) [(3, 4)]).valid 4 (some 3) = some false := by decide
 example : frontierValid (α := ℚ) [.edgeCut [7], .roadClass (some [1]) [1, 1]] 1 none = .ok true := by decide
+
+/-! ### Non-vacuity: serde's other spellings are read, the near misses refused -/
+
+example :
+    Build.dimOfJson (fun b => (b : ℚ)) (some (.arr [.num "5.0" 5, .obj [("feet", .null)]])) = some (5, .feet) ∧
+    Build.dimOfJson (fun b => (b : ℚ)) (some (.arr [.num "5.0" 5, .obj [("feet", .obj [])]])) = none ∧
+    Build.dimOfJson (fun b => (b : ℚ)) (some (.arr [.num "5.0" 5, .obj [("feet", .null), ("x", .null)]])) = none ∧
+    Build.distanceBuild (.obj [("type", .str "distance"), ("distance_unit", .obj [("miles", .null)])]) = .ok .miles ∧
+    Build.roadClassParserOfConfig (.obj [("road_class_parser", .arr [.obj [("class1", .num "1" 0)]])]) =
+      Build.roadClassParserOfConfig
+        (.obj [("road_class_parser", .obj [("mapping", .obj [("class1", .num "1" 0)])])]) ∧
+    Build.roadClassParserOfConfig (.obj [("road_class_parser", .arr [])]) = none := by
+  decide +kernel
+
 
 end C04
 end Compass
